@@ -14,7 +14,11 @@ void measure(NifFile& nif, bool def, const std::string& caseJson, const char* va
 	ContentIds ids, qids;
 	// answers that name things (not block numbers) must survive even the first, sorting and pruning, default save
 	long long namesBefore = batteryNames(nif, qids);
-	if (def) saveToString(nif, true, true); // the first default save sorts and prunes (block indices move): measure from there
+	// the first default save sorts and prunes (block indices move): the query batteries are measured from there, but what
+	// it wrote is the first output of this model: the next save has to write the same
+	uint32_t blocksBeforeFirst = nif.GetHeader().GetNumBlocks();
+	std::string bFirst = def ? saveToString(nif, true, true) : std::string();
+	bool prunedFirst = nif.GetHeader().GetNumBlocks() != blocksBeforeFirst;
 	long long namesAfterFirst = batteryNames(nif, qids);
 	for (auto s : nif.GetShapes()) s->UpdateBounds();
 	JObj ev;
@@ -27,6 +31,9 @@ void measure(NifFile& nif, bool def, const std::string& caseJson, const char* va
 	// a save before any query: the history save, queries, save must give the same file twice
 	std::string b0 = saveToString(nif, def, def);
 	ev.raw("S0", fileAbstract(b0, &nif, ids));
+	// (a first default save that prunes blocks still writes their strings: the two-round convergence that C01 spells out)
+	ev.add("hasFirst", def && !prunedFirst);
+	if (def) ev.raw("Sfirst", fileAbstract(bFirst, &nif, ids)).add("eqFirstRaw", bFirst == b0);
 	// some accessors convert cached data lazily (e.g. GetShapePartitions turns partition strips into triangles, which
 	// changes what IsSSECompatible answers): let that settle first, so that a difference can only come from saving
 	battery(nif, qids);
@@ -62,6 +69,9 @@ int cmdResave(int argc, char** argv) {
 	for (size_t ti = 0; ti < types.size(); ti++)
 		for (int vi = 0; vi < 7; vi++)
 			if (stride <= 1 || (ti * 7 + vi) % stride == seed % stride) cases.push_back({"", types[ti], vers[vi], int((ti + vi + seed) % 3)});
+	// models built through the API with what editing leaves behind: a node whose only child was deleted (an emptied child
+	// slot) next to a shape, an emptied extra-data slot in front of used ones
+	for (int vi = 0; vi < 6; vi++) cases.push_back({"", "built:emptied-slots", vers[vi], 0});
 	{ Out trunc(outPath); }
 	auto caseOf = [&](size_t k) {
 		JObj c;
@@ -74,6 +84,31 @@ int cmdResave(int argc, char** argv) {
 		cases.size(), outPath, 120,
 		[&](size_t k, std::string& out) {
 			std::string bytes;
+			if (cases[k].type.compare(0, 6, "built:") == 0) {
+				for (int def = 0; def < 2; def++) {
+					NifFile nif;
+					nif.Create(versionByName(cases[k].ver));
+					MatTransform t;
+					auto a = nif.AddNode("A", t);
+					nif.AddNode("B", t, a);
+					std::vector<Vector3> v = {{0, 0, 0}, {1, 0, 0}, {0, 1, 0}};
+					std::vector<Triangle> tr = {Triangle(0, 1, 2)};
+					std::vector<Vector2> uv = {{0, 0}, {1, 0}, {0, 1}};
+					nif.CreateShapeFromData("S2", &v, &tr, &uv);
+					for (int e = 0; e < 3; e++) {
+						auto ed = std::make_unique<NiStringExtraData>();
+						ed->name.get() = "x" + std::to_string(e);
+						ed->stringData.get() = "v";
+						nif.AssignExtraData(nif.GetRootNode(), std::move(ed));
+					}
+					nif.DeleteNode("B");
+					auto& hd = nif.GetHeader();
+					hd.DeleteBlock(nif.GetRootNode()->extraDataRefs.GetBlockRef(0));
+					markPhase(3);
+					measure(nif, def != 0, caseOf(k), "built", out);
+				}
+				return;
+			}
 			if (!cases[k].file.empty()) bytes = readFile(samplePath(cases[k].file));
 			else {
 				NifFile gen;
